@@ -260,8 +260,8 @@ def search(ctx):
     rng = ctx.subrng('search')
     ctx._max_lines = 0
     for k in range(ctx.scale(300, 3000)):
+        m, t, no_prss = rng.choice(CFGS_T)
         kind = ['int', 'fxp', 'fld', 'fldtiny'][k % 4]
-        kind = ['int', 'fxp', 'fld'][k % 3]
         build, desc = gen_program(rng, kind)
         seed = rng.randrange(10**9)
         mode = rng.choice(['random', 'starve', 'lazynet', 'eagernet'])
